@@ -1,0 +1,37 @@
+//go:build verif
+
+package icmp_spoofer
+
+import (
+	"net/netip"
+
+	"github.com/irai/packet"
+)
+
+// Contracts for the ICMP handlers (C08: no panic, termination on every frame Parse
+// classifies as ICMPv4 / ICMPv6).
+
+func spec_handler6_ok(h *Handler6) bool {
+	return h != nil && h.session != nil && packet.VerifSpecSessionOK(h.session) && h.LANRouters != nil && h.closeChan != nil &&
+		vMapAll(h.LANRouters, func(k netip.Addr, r *Router) bool { return r != nil })
+}
+
+// Every frame Parse classes as PayloadICMP4 is processed without panic.
+//
+//verif:props C08
+//verif:timeout 120s
+func verif_lemma_dispatch_icmp4(h *Handler4, frame packet.Frame) {
+	vRequires(h != nil && packet.VerifSpecFrameICMP4(frame))
+	vCanary()
+	_ = h.ProcessPacket(frame)
+}
+
+// Every frame Parse classes as PayloadICMP6 is processed without panic.
+//
+//verif:props C08
+//verif:timeout 120s
+func verif_lemma_dispatch_icmp6(h *Handler6, frame packet.Frame) {
+	vRequires(spec_handler6_ok(h) && packet.VerifSpecFrameICMP6(frame))
+	vCanary()
+	_ = h.ProcessPacket(frame)
+}
